@@ -151,6 +151,8 @@ SCUnfrozen(S, op, ord, ford) ==
     [] op.name = "remove_edges_from" -> Deprecated(RemoveSimplexIdsFrom(S, op.ns))
     [] op.name = "set_net_attr" -> {Ok([S EXCEPT !.gattr = Put(@, op.k, op.v)])}
     [] op.name = "freeze" -> {Ok([S EXCEPT !.frozen = TRUE])}
+    \* the history continues on a copy / constructor copy / pickle while the original is edited behind its back
+    [] op.name = "fork" -> {Ok(IF op.s1 = "constructor" THEN [S EXCEPT !.uid = 0] ELSE S)}  \* a rebuilt network starts from the ids it holds
 
 SCOutcomes(S, op, ord, ford) ==
   IF S.frozen /\ op.name \in SCStructuralOps
